@@ -5,7 +5,8 @@
    (so also u128 values above i128::MAX, which are refused, never truncated), every double.
 
    `exact_or_error a b r` is: if a, b and r all fit i128 then Ok (VInt I128 r) else an error. *)
-From TeraV Require Import Model.Value Model.Number Spec.Arith Proofs.NumberProofs.
+From TeraV Require Import Model.Value Model.Number Spec.Arith Proofs.NumberProofs
+  Proofs.NumCmpProofs.
 
 (* + - * and unary minus: the exact result iff operands and result fit, otherwise an error;
    nothing else can come out (no wrapped / truncated value, no panic) *)
@@ -123,10 +124,108 @@ Theorem C13_no_panic : forall op a b,
   vm_binop op a b <> Some (RErr ErrPanic) /\ vm_negative a <> Some (RErr ErrPanic).
 Proof. exact (fun op a b => conj (vm_binop_no_panic op a b) (vm_negative_no_panic a)). Qed.
 
+(* ------------------------------------------------------------------ comparison
+   wf_num v: v is an integer within the range of its representation tag (any of U64 / I64 /
+   U128 / I128) or a binary64 double (any: zeros, subnormals, infinities, NaN).
+   xval v: its exact mathematical value (an integer, a dyadic rational m*2^e, -inf, +inf, NaN);
+   xcmp: the exact order on those, NaN equal to itself and above everything. *)
+
+(* the ordering and the equality the engine computes ARE the exact ones, for any two numbers in
+   any of the five encodings *)
+Theorem C13_num_cmp_exact : forall a b,
+  wf_num a -> wf_num b ->
+  num_partial_cmp a b = Some (xcmp (xval a) (xval b)) /\
+  (num_eq a b = true <-> xeq (xval a) (xval b)).
+Proof. exact num_cmp_exact. Qed.
+
+(* the literal ports of cmp_f64_to_i128 / cmp_f64_to_u128 (guards at 2^127 and 2^128 through the
+   rounded constants, floor, saturating cast, tie-break) compare a double with an integer exactly *)
+Theorem C13_cmp_f64_to_i128_exact : forall x n,
+  valid64 x -> fits_i128 n ->
+  cmp_f64_to_i128 x n = xcmp (xval_float x) (XFin n 0).
+Proof. exact cmp_f64_to_i128_exact. Qed.
+
+Theorem C13_cmp_f64_to_u128_exact : forall x n,
+  valid64 x -> 0 <= n <= u128_max ->
+  cmp_f64_to_u128 x n = xcmp (xval_float x) (XFin n 0).
+Proof. exact cmp_f64_to_u128_exact. Qed.
+
+(* the six template operators == != < <= > >= answer according to the exact order *)
+Theorem C13_vm_cmp_exact : forall op a b,
+  wf_num a -> wf_num b ->
+  vm_cmp op a b = ROk (VBool (spec_test op (xcmp (xval a) (xval b)))).
+Proof. exact vm_cmp_exact. Qed.
+
+(* IEEE comparison of two valid doubles is the exact comparison of their values *)
+Theorem C13_float_compare_exact : forall x y,
+  valid64 x -> valid64 y -> not_nan x -> not_nan y ->
+  SFcompare x y = Some (xcmp (xval_float x) (xval_float y)).
+Proof. exact SFcompare_exact. Qed.
+
+(* the exact order is a total order (on values up to equality of value) *)
+Theorem C13_xcmp_total_order : forall a b c r,
+  xcmp a a = Eq /\ xcmp b a = CompOpp (xcmp a b) /\
+  (xcmp a b = r -> xcmp b c = r -> xcmp a c = r) /\
+  (xcmp a b = Eq -> xcmp a c = xcmp b c).
+Proof.
+  exact (fun a b c r => conj (xcmp_refl a) (conj (xcmp_antisym a b)
+           (conj (xcmp_trans r a b c) (xcmp_eq_l a b c)))).
+Qed.
+
+(* hence: reflexive, antisymmetric / symmetric, transitive, == consistent with the ordering *)
+Theorem C13_num_cmp_reflexive : forall a, wf_num a ->
+  num_partial_cmp a a = Some Eq /\ num_eq a a = true.
+Proof. exact num_cmp_refl. Qed.
+
+Theorem C13_num_cmp_antisymmetric : forall a b, wf_num a -> wf_num b ->
+  num_partial_cmp b a = option_map CompOpp (num_partial_cmp a b) /\ num_eq b a = num_eq a b.
+Proof. exact num_cmp_antisym. Qed.
+
+Theorem C13_num_cmp_transitive : forall r a b c, wf_num a -> wf_num b -> wf_num c ->
+  num_partial_cmp a b = Some r -> num_partial_cmp b c = Some r -> num_partial_cmp a c = Some r.
+Proof. exact num_cmp_trans. Qed.
+
+Theorem C13_num_eq_transitive : forall a b c, wf_num a -> wf_num b -> wf_num c ->
+  num_eq a b = true -> num_eq b c = true -> num_eq a c = true.
+Proof. exact num_eq_trans. Qed.
+
+Theorem C13_num_eq_iff_cmp_equal : forall a b, wf_num a -> wf_num b ->
+  (num_eq a b = true <-> num_partial_cmp a b = Some Eq).
+Proof. exact num_eq_iff_cmp_eq. Qed.
+
+(* comparison results never depend on how a number happened to be represented *)
+Theorem C13_num_cmp_representation_independent : forall a a' b,
+  wf_num a -> wf_num a' -> wf_num b -> num_eq a a' = true ->
+  num_partial_cmp a b = num_partial_cmp a' b /\ num_eq a b = num_eq a' b /\
+  num_partial_cmp b a = num_partial_cmp b a' /\ num_eq b a = num_eq b a'.
+Proof. exact num_cmp_rep_independent. Qed.
+
+Theorem C13_same_integer_any_tag : forall ra rb z b,
+  rep_ok ra z = true -> rep_ok rb z = true -> wf_num b ->
+  num_partial_cmp (VInt ra z) b = num_partial_cmp (VInt rb z) b /\
+  num_eq (VInt ra z) b = num_eq (VInt rb z) b.
+Proof. exact same_int_any_rep. Qed.
+
+(* NaN equal to itself and ordered after every number; -0 = +0 = 0 *)
+Theorem C13_nan_is_greatest : forall b, wf_num b ->
+  num_partial_cmp (VFloat S754_nan) b = Some (match b with VFloat S754_nan => Eq | _ => Gt end) /\
+  num_eq (VFloat S754_nan) (VFloat S754_nan) = true.
+Proof. exact nan_is_greatest. Qed.
+
+Theorem C13_zeros_equal : forall r,
+  num_eq (VFloat (S754_zero true)) (VFloat (S754_zero false)) = true /\
+  num_eq (VFloat (S754_zero true)) (VInt r 0) = true /\
+  num_eq (VInt r 0) (VFloat (S754_zero false)) = true /\
+  num_partial_cmp (VFloat (S754_zero true)) (VInt r 0) = Some Eq.
+Proof. exact zeros_equal. Qed.
+
 Print Assumptions C13_add_exact_or_error.
 Print Assumptions C13_floordiv_rem_euclid.
 Print Assumptions C13_pow_exact.
 Print Assumptions C13_no_panic.
+Print Assumptions C13_num_cmp_exact.
+Print Assumptions C13_vm_cmp_exact.
+Print Assumptions C13_num_cmp_representation_independent.
 
 (* non-vacuity *)
 Example C13_ex_add_overflow :
@@ -148,4 +247,22 @@ Proof. vm_compute. auto. Qed.
 Example C13_ex_pow :
   vm_binop OpPow (VInt I64 (-2)) (VInt U64 127) = Some (ROk (VInt I128 i128_min)) /\
   vm_binop OpPow (VInt U64 2) (VInt U64 127) = Some (RErr ErrRender).
+Proof. vm_compute. auto. Qed.
+
+(* 2^53 + 1 is not representable: the double 2^53 is below it, the double 2^53 + 2 above it, and
+   a lossy `as f64` comparison would call the first pair equal *)
+Example C13_ex_cmp_2p53 :
+  vm_cmp OpLt (VFloat (S754_finite false 4503599627370496 1)) (VInt U64 9007199254740993) = ROk (VBool true) /\
+  vm_cmp OpEq (VFloat (S754_finite false 4503599627370496 1)) (VInt U64 9007199254740993) = ROk (VBool false) /\
+  vm_cmp OpGt (VFloat (S754_finite false 4503599627370497 1)) (VInt I128 9007199254740993) = ROk (VBool true).
+Proof. vm_compute. auto. Qed.
+(* i128::MAX as f64 rounds to 2^127, which is above i128::MAX and equal to the u128 2^127 *)
+Example C13_ex_cmp_2p127 :
+  vm_cmp OpGt (VFloat (S754_finite false 4503599627370496 75)) (VInt I128 i128_max) = ROk (VBool true) /\
+  vm_cmp OpEq (VFloat (S754_finite false 4503599627370496 75)) (VInt U128 two127) = ROk (VBool true) /\
+  vm_cmp OpLt (VFloat (S754_finite false 4503599627370496 76)) (VInt U128 u128_max) = ROk (VBool false).
+Proof. vm_compute. auto. Qed.
+Example C13_ex_wf_satisfiable :
+  wf_num (VInt U128 u128_max) /\ wf_num (VInt I128 i128_min) /\ wf_num (VFloat S754_nan) /\
+  wf_num (VFloat (S754_finite true 1 (-1074))) /\ wf_num (VFloat (S754_finite false 9007199254740991 971)).
 Proof. vm_compute. auto. Qed.
